@@ -796,10 +796,10 @@ class int_gcd_compares(Conv):
         summands = strip_plus(pt_norm_form.rhs.arg1)
         coeffs = [int_eval(s.arg1) if not s.is_number() else int_eval(s) for s in summands]
         g = functools.reduce(gcd, coeffs)
-        if g <= 1:
+        vars = [s.arg for s in summands if not s.is_number()]
+        if g <= 1 or not vars:
             return pt
 
-        vars = [s.arg for s in summands if not s.is_number()]
         elim_gcd_coeffs = [int(i/g) for i in coeffs]
         if len(vars) < len(coeffs):
             simp_t = sum([coeff * v for coeff, v in zip(elim_gcd_coeffs[1:-1], vars[1:])], elim_gcd_coeffs[0] * vars[0]) + Int(elim_gcd_coeffs[-1])
